@@ -209,6 +209,9 @@ impl Ctx {
             self.id, leg.name, leg.engine, leg.states, leg.transitions, leg.evaluations, leg.distinct_nontrivial,
             leg.exhaustive, leg.wall_s
         );
+        if let Some(n) = sched::leg_notes(&leg.name) {
+            eprintln!("[{}]     oracle applicability: {}", self.id, n.iter().map(|(k, v)| format!("{}={}", k, v)).collect::<Vec<_>>().join(", "));
+        }
         self.legs.lock().unwrap().push(leg);
     }
 
@@ -271,6 +274,7 @@ impl Ctx {
                             json!({"name": l.name, "engine": l.engine, "states": l.states, "transitions": l.transitions,
                                 "evaluations": l.evaluations, "distinct_nontrivial": l.distinct_nontrivial,
                                 "exhaustive_within_bounds": l.exhaustive, "bounds": l.bounds, "rule": l.rule,
+                                "oracle_applicability": sched::leg_notes(&l.name),
                                 "wall_s": (l.wall_s * 1000.0).round() / 1000.0})
                         })
                         .collect(),
